@@ -19,10 +19,11 @@
     occur ([C04_collision_breaks_map] shows the premise is necessary); at every save, [save_premises]
     (sizes below the format's limits, a supported internal compression, JSON-object metadata) and the
     success of the write itself, which [C04_save_succeeds] derives from size conditions ([save_sizes]) and the
-    codec size law.  What is still missing for the full statement: the operation "open arbitrary valid bytes"
-    inside a history (C03's reader-meets-spec theorem); it is covered by the correspondence run and the
-    direct oracle (histories starting from foreign archives). *)
-Require Import PM.Base PM.Oracles PM.TileManager PM.TileManagerProofs PM.Archive PM.History PM.HistoryProofs PM.Float PM.Header PM.HeaderProofs PM.DirReader PM.ReopenProofs PM.TotalityProofs.
+    codec size law; for an open, spec-validity of the bytes (C03's [wf_dir]) and every addressed tile range
+    inside the file ([C04_open_represents]: the opened archive represents the map the specification's lookup
+    defines, so a history may start from, or continue with, any such open — each segment between opens is
+    covered by [C04_refines_map_saves_partial]). *)
+Require Import PM.Base PM.Oracles PM.TileManager PM.TileManagerProofs PM.Archive PM.History PM.HistoryProofs PM.Float PM.Header PM.HeaderProofs PM.DirReader PM.ReopenProofs PM.TotalityProofs PM.Stream PM.SpecLookup PM.OpenRepProofs.
 From Coq Require Import Permutation.
 Open Scope N_scope.
 
@@ -63,6 +64,22 @@ Theorem C04_save_succeeds : forall cx, codec_inv cx -> codec_size cx -> forall a
 Proof.
   intros cx Hi Hs asy p m HR Hp Hz. apply (save_total cx Hs asy p m HR Hp Hz); vm_compute; discriminate.
 Qed.
+
+(** an archive opened from spec-valid bytes (C03's validity, every addressed tile range inside the file) represents the
+    map the specification's lookup defines: histories may start from, or continue with, such an open *)
+Theorem C04_open_represents : forall cx img h rest meta,
+  decode_header img = Ok (h, rest) ->
+  (if h_meta_len h =? 0 then Ok empty_object else read_meta cx (h_icomp h) (section img (h_meta_off h) (h_meta_len h))) = Ok meta ->
+  wf_dir cx (h_icomp h) img (h_leaf_off h) 4 (h_root_off h) (h_root_len h) 0 two64 ->
+  (forall id o l, spec_lookup cx (h_icomp h) img (h_leaf_off h) 4 (h_root_off h) (h_root_len h) id = Ok (Some (o, l)) ->
+                  h_data_off h + o < two64 /\ l <> 0 /\ exists b, read_at img (h_data_off h + o) l = Ok b) ->
+  exists p' m, from_reader cx img full_range = Ok p' /\ Rep cx p' m /\ p_meta p' = meta /\
+    forall id, exists r, spec_lookup cx (h_icomp h) img (h_leaf_off h) 4 (h_root_off h) (h_root_len h) id = Ok r /\
+      match r with
+      | Some (o, l) => exists b, read_at img (h_data_off h + o) l = Ok b /\ aget id m = Some b
+      | None => aget id m = None
+      end.
+Proof. intros cx img h rest meta Hd. exact (open_rep cx img h rest meta Hd eq_refl). Qed.
 
 (** histories that also save and reopen *)
 Theorem C04_refines_map_saves_partial : forall cx, codec_inv cx -> forall ops p m,
